@@ -23,6 +23,9 @@ import (
 )
 
 type walker struct {
+	pathMode bool
+	extNames map[string]bool
+	noAccess bool
 	pkgMode  bool
 	muName   string
 	extRefs  []string // unexported methods of the type referenced from outside its methods (exportedOnly mode)
@@ -51,6 +54,7 @@ type emitter struct {
 	alias    map[string]string        // local variable -> deep field whose region it points into (sticky: never removed)
 	retAlias string                   // deep field a returned value points into
 	callRet  map[*ast.CallExpr]string // receiver-method call -> retAlias of the inlined callee
+	returned bool                     // path mode: this path has executed a return
 }
 
 func (e *emitter) emit(a string) { e.acts = append(e.acts, a) }
@@ -69,12 +73,22 @@ type target struct {
 	// variables of the file, the "methods" are the package-level functions of the file
 	vars   []string
 	muName string
+	// path mode (walk ... paths): an `if` whose arms contain a lock operation or a return is FORKED -- the method gets one
+	// table entry per execution path "Name#k" (arms are walked as top-level code, a return ends the path, deferred
+	// operations run at its end); every real execution follows one of the entries.  extNames (ext=a,b): exactly the
+	// calls with these method names are call-outs (AExt), nothing else; noAccess: field accesses are not recorded
+	// (a table about the SPAN of a lock, not about what it guards); only: entries for these methods only
+	paths    bool
+	extNames map[string]bool
+	noAccess bool
+	only     map[string]bool
 }
 
 func loadWalker(repo string, tg target) (*walker, error) {
 	w := &walker{fset: token.NewFileSet(), methods: map[string]*ast.FuncDecl{}, isMap: map[string]bool{},
 		fieldID: map[string]int{}, written: map[string]bool{}, selfSync: map[string]bool{}, atomic: map[string]bool{}, deep: tg.deep}
 	var others []*ast.FuncDecl
+	w.pathMode, w.extNames, w.noAccess = tg.paths, tg.extNames, tg.noAccess
 	w.pkgMode = tg.typ == "-"
 	w.muName = tg.muName
 	if w.muName == "" {
@@ -269,6 +283,10 @@ func (e *emitter) muOp(c *ast.CallExpr) (string, bool) {
 		return "AUnlock", true
 	case "RUnlock":
 		return "ARUnlock", true
+	case "enter": // runtime.loadLock
+		return "ALock", true
+	case "leave":
+		return "AUnlock", true
 	}
 	return "AOpaque", true
 }
@@ -374,12 +392,15 @@ func (e *emitter) setAlias(l ast.Expr, f string) {
 }
 
 func (e *emitter) read(f string) {
-	if e.w.selfSync[f] {
+	if e.w.selfSync[f] || e.w.noAccess {
 		return
 	}
 	e.emit(fmt.Sprintf("ARead %d", e.w.fieldID[f]))
 }
 func (e *emitter) write(f string) {
+	if e.w.noAccess {
+		return
+	}
 	e.w.written[f] = true
 	e.emit(fmt.Sprintf("AWrite %d", e.w.fieldID[f]))
 }
@@ -564,6 +585,26 @@ func (e *emitter) call(c *ast.CallExpr, nested bool) {
 			}
 			return
 		}
+	}
+	if e.w.extNames != nil {
+		// explicit call-out list: exactly the calls with these method / function names run foreign code
+		name := ""
+		switch f := c.Fun.(type) {
+		case *ast.Ident:
+			name = f.Name
+		case *ast.SelectorExpr:
+			e.expr(f.X, nested)
+			name = f.Sel.Name
+		default:
+			e.expr(c.Fun, nested)
+		}
+		for _, a := range c.Args {
+			e.expr(a, nested)
+		}
+		if e.w.extNames[name] {
+			e.emit("AExt")
+		}
+		return
 	}
 	// any other call: evaluate receiver/function expression and arguments
 	ext := false
@@ -802,7 +843,9 @@ func (e *emitter) stmt(s ast.Stmt, nested bool) {
 				e.retAlias = f
 			}
 		}
-		if e.explicit > 0 {
+		if e.w.pathMode && !nested {
+			e.returned = true // the path ends here (with whatever is still held: wl decides)
+		} else if e.explicit > 0 {
 			e.emit("AOpaque") // return while an explicitly taken lock has no deferred release
 		}
 	case *ast.IfStmt:
@@ -869,6 +912,72 @@ func (e *emitter) stmt(s ast.Stmt, nested bool) {
 	}
 }
 
+// ---- path mode
+func (e *emitter) clone() *emitter {
+	c := *e
+	c.acts = append([]string{}, e.acts...)
+	c.deferred = append([][]string{}, e.deferred...)
+	c.alias = map[string]string{}
+	for k, v := range e.alias {
+		c.alias[k] = v
+	}
+	return &c
+}
+
+// forks: does the statement contain a lock operation or a return outside function literals?
+func (e *emitter) forks(n ast.Node) bool {
+	found := false
+	ast.Inspect(n, func(x ast.Node) bool {
+		if found {
+			return false
+		}
+		switch v := x.(type) {
+		case *ast.FuncLit:
+			return false
+		case *ast.ReturnStmt:
+			found = true
+		case *ast.CallExpr:
+			if _, ok := e.muOp(v); ok {
+				found = true
+			}
+		}
+		return !found
+	})
+	return found
+}
+
+// runPaths executes the statements on every live path; an `if` that forks is split into its arms
+func runPaths(live []*emitter, list []ast.Stmt) []*emitter {
+	for _, s := range list {
+		var next []*emitter
+		for _, em := range live {
+			if em.returned {
+				next = append(next, em)
+				continue
+			}
+			if ifs, ok := s.(*ast.IfStmt); ok && em.forks(ifs) && len(live) < 256 {
+				em.stmt(ifs.Init, false)
+				em.expr(ifs.Cond, false)
+				a := em.clone()
+				next = append(next, runPaths([]*emitter{a}, ifs.Body.List)...)
+				switch el := ifs.Else.(type) {
+				case nil:
+					next = append(next, em)
+				case *ast.BlockStmt:
+					next = append(next, runPaths([]*emitter{em}, el.List)...)
+				default:
+					next = append(next, runPaths([]*emitter{em}, []ast.Stmt{el})...)
+				}
+				continue
+			}
+			em.stmt(s, false)
+			next = append(next, em)
+		}
+		live = next
+	}
+	return live
+}
+
 func coqList(xs []string) string { return "[" + strings.Join(xs, "; ") + "]" }
 
 // walk prints the Coq table for the repository at `repo`.
@@ -891,8 +1000,18 @@ func walk(repo string, tg target) (string, error) {
 		if tg.exportedOnly && !ast.IsExported(name) {
 			continue
 		}
+		if tg.only != nil && !tg.only[name] {
+			continue
+		}
 		fd := w.methods[name]
 		e := &emitter{w: w, recv: recvName(fd), stack: []string{name}}
+		if tg.paths {
+			for k, pe := range runPaths([]*emitter{e}, fd.Body.List) {
+				pe.finish()
+				ents = append(ents, entry{fmt.Sprintf("%s#%d", name, k+1), pe.acts})
+			}
+			continue
+		}
 		e.block(fd.Body.List, false)
 		e.finish()
 		ents = append(ents, entry{name, e.acts})
